@@ -242,11 +242,11 @@ struct Test { int id; int (*fn)(const Ctx&); unsigned pf, pg, ph; const char* sr
 static const Test* cur = 0;
 static int cur_k = 0;
 static volatile int in_test = 0;
-static long n_reported = 0;
+static long n_reported = 0, n_reported_fn = 0;
 static const Ctx* cur_ctx = 0;
 
 inline void report(const char* item, const std::string& got, const std::string& want) {
-  if (n_reported++ >= 40) return;
+  if (n_reported_fn++ >= 2 || n_reported++ >= 120) return;
   printf("MISMATCH func=%d tuple=%d expr=%s got=%s want=%s item=%s\n", cur->id, cur_k, cur->src, got.c_str(), want.c_str(), item);
   printf("TUPLE func=%d tuple=%d %s\n", cur->id, cur_k, tuple_str(*cur_ctx).c_str());
   fflush(stdout);
@@ -482,7 +482,7 @@ inline int run(const Test* T, int n, int argc, char** argv, const char* tuple) {
   signal(SIGABRT, on_signal); signal(SIGSEGV, on_signal); signal(SIGFPE, on_signal); signal(SIGBUS, on_signal);
   long evals = 0, div0 = 0, dom = 0, amb = 0, fnd = 0, bad = 0, badf = 0;
   for (int i = 0; i < n; i++) {
-    Ctx C(T[i].pf, T[i].pg, T[i].ph); cur = &T[i]; cur_ctx = &C; long fb = 0;
+    Ctx C(T[i].pf, T[i].pg, T[i].ph); cur = &T[i]; cur_ctx = &C; long fb = 0; n_reported_fn = 0;
     for (int k = 0; k < (tuple ? 1 : K); k++) {
       cur_k = k;
       if (tuple) load_tuple(C, tuple); else gen(C, seed, T[i].id, k);
